@@ -657,6 +657,13 @@ func c31bCheck(c *kit.Case, in c31bInput) {
 	if !ok || len(in.Svcs) == 0 {
 		return
 	}
+	classed := map[string]bool{}
+	classOnce := func(name string) {
+		if !classed[name] {
+			classed[name] = true
+			c.Class(name)
+		}
+	}
 
 	// ---- oracle for admission (12.39 / 12.40 on the PRIOR state)
 	ordered := true
@@ -761,11 +768,11 @@ func c31bCheck(c *kit.Case, in c31bInput) {
 			dd.pre[e.Svc][c31H(b)] = b
 			dd.recs[i].slots = []uint32{in.Tau}
 			dd.recs[i].raw = false
-			c.Class("acc_provided_same_block")
+			classOnce("acc_provided_same_block")
 		case "withdrawn":
 			dd.recs = append(dd.recs[:i], dd.recs[i+1:]...)
 			withdrawn[a.Idx] = true
-			c.Class("acc_withdrawn_same_block")
+			classOnce("acc_withdrawn_same_block")
 		}
 	}
 	// ---- oracle for integration (12.41-12.43): δ′ = δ‡ except, for every
@@ -780,7 +787,7 @@ func c31bCheck(c *kit.Case, in c31bInput) {
 		want.pre[e.Svc][c31H(b)] = b
 		want.recs[i].slots = []uint32{in.Tau}
 		if want.recs[i].raw {
-			c.Class("integrated_record_was_raw_only")
+			classOnce("integrated_record_was_raw_only")
 		}
 	}
 
